@@ -25,7 +25,9 @@ plan('C12',
          Job(H, 'counters', 'tsan', quick=4, thorough=16, shards=(2, 4), params=dict(threads=16, ops=20000), tparams=dict(ops=100000), weight=4, batch=1, case_timeout=300, leakcheck=False),
          Job(H, 'counters', 'plain', quick=12, thorough=60, shards=(3, 4), params=dict(threads=16, ops=300000), tparams=dict(ops=2000000), weight=4, batch=4, case_timeout=300),
      ],
-     assumptions=COMMON_ASSUME + ['interleavings are explored at the granularity of the hook points in front of atomicInc/atomicDec; the atomic step itself is only exercised by the real-thread stress runs '
+     assumptions=COMMON_ASSUME + [
+         'kind Shared<Derived>: its assignments additionally go through a base-typed handle (converting constructor, then converting assignment of the object it already holds); the base handle never outlives the two typed handles, so the object is always deleted through its own type; not in the TSan build (the converting copy rewrites the unchanged object pointer in the shared count block)',
+         'interleavings are explored at the granularity of the hook points in front of atomicInc/atomicDec; the atomic step itself is only exercised by the real-thread stress runs '
                                   '(TSan happens-before analysis, lost-update conservation at full speed)',
                                   'reorderings that a weaker memory model than x86-64 TSO allows are seen only through TSan, not executed',
                                   'a handle is never assigned to itself (h = h), which is a sequential matter outside this property'])
